@@ -1340,44 +1340,70 @@ func c34SrcProposals() *c34Source {
 		},
 		BlockTxs: func(c *kit.Ctx, nd *node.Node, r *rand.Rand, sel []interfaces.Transaction) []interfaces.Transaction {
 			k.reclaim()
-			// a non-pool proposal with the same draft hash as a pool proposal that is not selected, sponsored by another member
-			used := map[common.Uint168]bool{}
-			drafts := map[common.Uint256]bool{}
-			hasProposal := false
+			// A block confirms a proposal that is NOT in this pool (other inputs, other
+			// sponsor) with the same draft hash as a budget-carrying pool proposal that is
+			// not selected for the block: CleanSubmittedTransactions leaves the pool
+			// proposal alone (no shared outpoint), the re-validation of
+			// CheckAndCleanAllTransactions then drops it ("duplicated draft proposal
+			// hash"), and the pending-proposal budget total has to follow.
+			selDrafts := map[common.Uint256]bool{}
 			for _, tx := range sel {
 				if p, ok := tx.Payload().(*payload.CRCProposal); ok {
-					used[p.CRCouncilMemberDID] = true
-					drafts[p.DraftHash] = true
-					hasProposal = true
+					selDrafts[p.DraftHash] = true
 				}
 			}
-			if hasProposal {
-				return nil // keep the block's own proposal set simple (budget / per-type uniqueness inside a block)
-			}
+			sponsors := map[common.Uint168]bool{}
+			var victim *payload.CRCProposal
 			for _, tx := range c34PoolSorted(nd) {
 				p, ok := tx.Payload().(*payload.CRCProposal)
-				if !ok || inSel(sel, tx) || p.ProposalType != payload.Normal || tx.PayloadVersion() >= payload.CRCProposalVersion01 && len(p.DraftData) == 0 {
+				if !ok {
 					continue
 				}
-				var draft []byte
-				for _, d := range []string{"draft-a", "draft-b", "draft-c", "draft-d"} {
-					if common.Hash([]byte(d)) == p.DraftHash {
-						draft = []byte(d)
-					}
-				}
-				if draft == nil {
+				sponsors[p.CRCouncilMemberDID] = true
+				if victim != nil || inSel(sel, tx) || len(p.Budgets) == 0 || selDrafts[p.DraftHash] || draftOf[p.DraftHash] == nil {
 					continue
 				}
+				if p.ProposalType != payload.Normal && p.ProposalType != payload.ELIP {
+					continue
+				}
+				victim = p
+			}
+			if victim == nil && r.Intn(4) != 0 {
+				// none pending: a member without a pending proposal submits one right before the block arrives
 				for _, m := range members {
-					if !node.DIDOf(m).IsEqual(p.CRCouncilMemberDID) {
-						o := owners[r.Intn(len(owners))]
-						t := mk(nd, c34ProposalSpec{ProposalSpec: node.ProposalSpec{Type: payload.Normal, Owner: o, CRMember: m, Draft: draft,
-							Budgets: budgets(), Recipient: o.ProgramHash}})
-						if t != nil {
-							c.Inc("blocktx:proposal-same-draft")
-							return []interfaces.Transaction{t}
-						}
+					if sponsors[node.DIDOf(m)] {
+						continue
 					}
+					o := owners[r.Intn(len(owners))]
+					draft := []byte("draft-v-" + k.uniq())
+					t := mk(nd, c34ProposalSpec{ProposalSpec: node.ProposalSpec{Type: payload.Normal, Owner: o, CRMember: m, Draft: draft,
+						Budgets: budgets(), Recipient: o.ProgramHash}})
+					if t == nil {
+						break
+					}
+					draftOf[common.Hash(draft)] = draft
+					if err := nd.TxPool.AppendToTxPool(t); err != nil {
+						c.Inc("blocktx:proposal-victim-refused")
+						break
+					}
+					c.Inc("blocktx:proposal-victim-submitted")
+					victim = t.Payload().(*payload.CRCProposal)
+					break
+				}
+			}
+			if victim == nil {
+				return nil
+			}
+			for _, m := range members {
+				if node.DIDOf(m).IsEqual(victim.CRCouncilMemberDID) {
+					continue
+				}
+				o := owners[r.Intn(len(owners))]
+				t := mk(nd, c34ProposalSpec{ProposalSpec: node.ProposalSpec{Type: payload.Normal, Owner: o, CRMember: m, Draft: draftOf[victim.DraftHash],
+					Budgets: budgets(), Recipient: o.ProgramHash}})
+				if t != nil {
+					c.Inc("blocktx:proposal-same-draft")
+					return []interfaces.Transaction{t}
 				}
 			}
 			return nil
